@@ -82,6 +82,10 @@ pub struct Case {
     /// was renamed afterwards: the announcement must carry the *current* metadata
     #[serde(default)]
     pub renamed_after_earlier_deployment: bool,
+    /// the same token was already announced once, by its rightful requester, just before the studied request: 0 no, 1 to
+    /// "ethereum", 2 to "Polygon-zkEVM" (so: to the same or to another chain than the studied request names), 3 to both
+    #[serde(default)]
+    pub announced_before: u8,
 }
 
 fn its_meta(k: u8) -> (Vec<u8>, Vec<u8>, u32) {
@@ -146,19 +150,20 @@ impl Property for C18 {
             prop_oneof![1 => Just(GasC::Zero), 1 => Just(GasC::Negative), 5 => (1u16..500).prop_map(GasC::Affordable), 1 => Just(GasC::ExactBalance), 1 => Just(GasC::BalancePlusOne)],
             prop_oneof![6 => Just(true), 1 => Just(false)],
             prop_oneof![2 => Just(false), 1 => Just(true)],
+            prop_oneof![3 => Just(0u8), 1 => Just(1u8), 1 => Just(2u8), 1 => Just(3u8)],
         )
-            .prop_map(|(tok, who, dest, gas, authorised, renamed_after_earlier_deployment)| Case { tok, who, dest, gas, authorised, renamed_after_earlier_deployment })
+            .prop_map(|(tok, who, dest, gas, authorised, renamed_after_earlier_deployment, announced_before)| Case { tok, who, dest, gas, authorised, renamed_after_earlier_deployment, announced_before })
             .boxed()
     }
     fn fixed_cases(&self, _tier: Tier) -> Vec<Case> {
         let mut v = vec![];
         for k in 0..16 {
-            v.push(Case { tok: Tok::Probe(k), who: Who::OriginalDeployer, dest: Dest::Trusted, gas: GasC::Affordable(3), authorised: true, renamed_after_earlier_deployment: false });
-            v.push(Case { tok: Tok::Probe(k), who: Who::OriginalDeployer, dest: Dest::Trusted, gas: GasC::Affordable(3), authorised: true, renamed_after_earlier_deployment: true });
+            v.push(Case { tok: Tok::Probe(k), who: Who::OriginalDeployer, dest: Dest::Trusted, gas: GasC::Affordable(3), authorised: true, renamed_after_earlier_deployment: false, announced_before: 0 });
+            v.push(Case { tok: Tok::Probe(k), who: Who::OriginalDeployer, dest: Dest::Trusted, gas: GasC::Affordable(3), authorised: true, renamed_after_earlier_deployment: true, announced_before: 0 });
         }
         for k in 0..10 {
-            v.push(Case { tok: Tok::ItsDeployed(k), who: Who::OriginalDeployer, dest: Dest::Trusted, gas: GasC::Affordable(3), authorised: true, renamed_after_earlier_deployment: false });
-            v.push(Case { tok: Tok::ItsDeployed(k), who: Who::OtherReusingSalt, dest: Dest::Trusted, gas: GasC::Affordable(3), authorised: true, renamed_after_earlier_deployment: false });
+            v.push(Case { tok: Tok::ItsDeployed(k), who: Who::OriginalDeployer, dest: Dest::Trusted, gas: GasC::Affordable(3), authorised: true, renamed_after_earlier_deployment: false, announced_before: 0 });
+            v.push(Case { tok: Tok::ItsDeployed(k), who: Who::OtherReusingSalt, dest: Dest::Trusted, gas: GasC::Affordable(3), authorised: true, renamed_after_earlier_deployment: false, announced_before: 0 });
         }
         v
     }
@@ -339,6 +344,35 @@ impl Property for C18 {
             let _ = w.its.client.try_is_trusted_chain(&sstr(env, "to-be-removed"));
             ensure_p!(w.untrust("to-be-removed"), "setup: the owner's removal of a trusted chain was refused");
             cx.label("removed_chain_was_used_just_before_its_removal");
+        }
+        // the same token may have been announced before (to the same or another chain), by whoever may rightfully request
+        // it; every request is a request of its own: checked, paid for and announced
+        if case.announced_before % 4 != 0 {
+            env.mock_all_auths_allowing_non_root_auth();
+            for (bit, name) in [(1u8, "ethereum"), (2u8, "Polygon-zkEVM")] {
+                if case.announced_before & bit == 0 {
+                    continue;
+                }
+                let one = Token { address: w.gas_asset.clone(), amount: 1 };
+                w.fund_gas(if canonical_entry { &w.users[2] } else { &deployer }, 1);
+                env.mock_all_auths_allowing_non_root_auth();
+                let r = if canonical_entry {
+                    w.its.client.try_deploy_remote_canonical_token(token_addr.as_ref().unwrap(), &sstr(env, name), &w.users[2], &one).map(|x| x.is_ok())
+                } else {
+                    w.its.client.try_deploy_remote_interchain_token(&deployer, &BytesN::from_array(env, &salt), &sstr(env, name), &one).map(|x| x.is_ok())
+                };
+                env.mock_all_auths_allowing_non_root_auth();
+                if matches!(r, Ok(true)) {
+                    cx.label(if name == dest_name { "same_token_announced_to_the_same_chain_before" } else { "same_token_announced_to_another_chain_before" });
+                } else if !canonical_entry {
+                    // the payment was not taken: keep the requester's balance at the level the gas classes assume
+                    let t = TokenClient::new(env, &w.gas_asset);
+                    let extra = t.balance(&deployer) - BAL;
+                    if extra > 0 {
+                        t.transfer(&deployer, &w.users[2], &extra);
+                    }
+                }
+            }
         }
         let before: Vec<(i128, i128)> = watch.iter().map(|a| (gas_t.balance(a), tok_bal(a))).collect();
 
